@@ -110,6 +110,8 @@ let handle = function
       "abs=" ^ show_t hex_of_bytes (name_from_chars None cs)
       ^ " rel=" ^ show_t hex_of_bytes (rel_from_chars None cs)
       ^ " unc=" ^ show_t (fun (a, b) -> (if a then "A:" else "R:") ^ hex_of_bytes b) (uncertain_from_chars None cs)
+  | ["dispr"; h] -> show_chars (display_rel (parse_labels (bytes_of_hex h)))
+  | ["olabel"; cs] -> show_t hex_of_bytes (owned_label_from_chars (chars_of cs))
   | ["disp"; h] ->
       let b = bytes_of_hex h in
       (match List.rev (parse_labels b) with _ -> show_chars (display_name (parse_labels b)))
